@@ -7,7 +7,8 @@ hprop.install(globals(), hprop.HistoryProperty(
     prop="C03",
     monitors=lambda: [C03Requests()],
     profile=profile(nv=(1, 6), n_requests=(8, 40), timeouts=[60, 120, 300, 600], socs=[0.003, 0.02, 0.08, 0.3, 0.8, 0.97],
-                    builtin=[False, True], fleets=[0, 0, 0, 2]),
+                    builtin=[False, True], fleets=[0, 0, 0, 2], steps=[5, 15, 15, 30, 30, 45, 60, 60, 90, 120, 300], block_graphs=[False, True],
+                    nets=["hav", "gen", "gen", "denver"]),
     nontrivial=lambda f: {"pickup", "cancel"} <= f and bool(f & {"two_vehicles_to_one_request", "instruction_on_carrying_vehicle", "expired_while_vehicle_en_route"}),
     rule=("stateful histories over generated worlds with dense request streams (bursts, co-located, origin = destination, 60-600 s "
           "timeouts), controllers that double-dispatch, re-dispatch and instruct passenger-carrying vehicles, built-in dispatcher in "
@@ -16,7 +17,7 @@ hprop.install(globals(), hprop.HistoryProperty(
           "non-trivial = >=1 pickup AND >=1 cancellation AND one of {two vehicles dispatched to one request, instruction attempted on "
           "a carrying vehicle, request expired while a vehicle was en route}; distinct = sha1(world, op log)"),
     assumptions=hprop.COMMON_ASSUMPTIONS,
-    quick=(16, 60, 40), thorough=(16, 1500, 70),
-    instr_bias={"kinds": [1, 1, 1, 1, 1, 0, 2, 3, 5, 6, 7, 8, 4], "vclasses": [0, 1, 2, 3, 3, 9, 9, 8], "tclasses": [0, 0, 1, 2, 7, 7, 4, 6]},
+    quick=(16, 120, 40), thorough=(16, 2500, 70),
+    instr_bias={"restate": True, "kinds": [1, 1, 1, 1, 1, 0, 2, 3, 5, 6, 7, 8, 4], "vclasses": [0, 1, 2, 3, 3, 9, 9, 8], "tclasses": [0, 0, 1, 2, 7, 7, 4, 6]},
 ))
 FLOORS = {"quick": {"flag:pickup": 30, "flag:cancel": 50}, "thorough": {"flag:pickup": 500}}
